@@ -27,10 +27,25 @@ func uvarintFromBytes(p []byte) (uint64, int) {
 	return uvarint.Decode(p)
 }
 
+// uvarintLen gives the encoded length of an uvarint from its first byte.
+func uvarintLen(b0 byte) int {
+	switch {
+	case b0 <= 240:
+		return 1
+	case b0 <= 248:
+		return 2
+	default:
+		return int(b0) - 246
+	}
+}
+
 func uvarintFromBuf(r *bufio.Reader) (uint64, error) {
 	p, err := r.Peek(9)
 	if err != nil && err != io.EOF {
 		return 0, err
+	}
+	if len(p) == 0 || len(p) < uvarintLen(p[0]) {
+		return 0, io.ErrUnexpectedEOF
 	}
 	x, n := uvarintFromBytes(p)
 	_, err = r.Discard(n)
@@ -135,23 +150,31 @@ func valueFromBuf(r *bufio.Reader) (value, error) {
 
 	switch c := typecode(b[0]); c {
 	case typeINT:
-		p, _ := r.Peek(9)
-		x, i := varintFromBytes(p)
-		_, err = r.Discard(i)
-		return int(x), err
+		u, err := uvarintFromBuf(r)
+		if err != nil {
+			return nil, err
+		}
+		return int(u64ToI64(u)), nil
 
 	case typeFLOAT:
-		p, _ := r.Peek(8)
-		_, err = r.Discard(len(p))
-		return math.Float64frombits(stdbinary.BigEndian.Uint64(p)), err
+		var p [8]byte
+		_, err = io.ReadFull(r, p[:])
+		if err != nil {
+			return nil, err
+		}
+		return math.Float64frombits(stdbinary.BigEndian.Uint64(p[:])), nil
 
 	case typeSTR:
-		p, _ := r.Peek(9)
-		k, i := uvarintFromBytes(p)
-		r.Discard(i)
-		p = make([]byte, k)
+		k, err := uvarintFromBuf(r)
+		if err != nil {
+			return nil, err
+		}
+		p := make([]byte, k)
 		_, err = io.ReadFull(r, p)
-		return string(p), err
+		if err != nil {
+			return nil, err
+		}
+		return string(p), nil
 
 	case typeBOOL:
 		_, err = io.ReadFull(r, b[:1])
@@ -161,7 +184,7 @@ func valueFromBuf(r *bufio.Reader) (value, error) {
 		return nil, nil
 
 	default:
-		panic(errInvalidType{b[0]})
+		return nil, errInvalidType{b[0]}
 	}
 }
 
